@@ -82,6 +82,21 @@ def identity(rep, syn):
     return not problems
 
 
+_G = None
+
+
+def parse_job(job):
+    global _G
+    from .. import realsyn, g4
+    if _G is None:
+        _G = g4.Grammar()
+    types, expect, variant = job
+    text = render.render_tokens(_G, types, variant=variant)
+    if text is None or [k["ty"] for k in realsyn.lex(text)] != types:
+        return None
+    return text, realsyn.parse_verdict(text)
+
+
 def class_rep(syn):
     reps = []
     for cl in syn.classes:
@@ -92,7 +107,7 @@ def class_rep(syn):
 
 
 def run(rep, tier, seed):
-    from .. import realsyn
+    from .. import realsyn, realrun
     rng = random.Random(seed)
     syn = syntax.Syntax()
     mods = syn.modules()
@@ -150,35 +165,42 @@ def run(rep, tier, seed):
                           {"kind": "lexer", "text": t, "real_tokens": toks, "fingerprint": None})
     rep.sample({"lexer_text": texts[len(texts) // 2], "tokens": [k["ty"] for k in cases[len(texts) // 2][1]]})
 
-    # 4b. behaviour of the generated Python parser on sentences / viable prefixes and one-token extensions
-    L = 11 if tier == "quick" else 13
+    # 4b. behaviour of the generated Python parser on sentences / viable prefixes and one-token extensions, from every rule context
+    L = 9 if tier == "quick" else 12
     r, sents = oracles.sentgen(mods, L)
     rep.add_tlc(r, "SentGen (grammar machine in generator mode, prefixes up to %d tokens)" % L)
     g = syn.g
-    npar = 0
-    dropped = 0
+    Lc = 2 if tier == "quick" else 4
+    names = [n_ for n_ in syntax.CONTEXTS if n_ != "start"]
+    rc, sc = oracles.sentgen(mods, Lc, prefixes=[syntax.context_tokens(g, n_) for n_ in names])
+    rep.add_tlc(rc, "SentGen from %d rule contexts (+%d tokens each)" % (len(names), Lc))
+    sents += sc
+    jobs = []
     for c in sents:
         nxt, acc = set(c["next"]), set(c["acc"])
         for t in range(1, g.EOF):
             if t in g.skipped:
                 continue
-            if tier == "quick" and t not in nxt and rng.random() < 0.5:
+            if tier == "quick" and t not in nxt and len(c["w"]) < 10 and rng.random() < 0.5:
                 continue
             types = c["w"] + [t]
-            text = render.render_tokens(g, types, variant=rng.randrange(3))
-            if text is None or [k["ty"] for k in realsyn.lex(text)] != types:
-                dropped += 1
-                continue
-            expect = -1 if t in acc else (len(types) if t in nxt else len(c["w"]))
-            got = realsyn.parse_verdict(text)
-            npar += 1
-            bad = (expect == -1) != (got == -1) or (expect >= 0 and got >= 0 and got < expect)
-            if bad:
-                rep.violation("Python parser verdict %d, grammar says %d (-1 = sentence, else first bad token) for token types %s"
-                              % (got, expect, types), {"kind": "parser", "text": text, "types": types, "expect": expect, "got": got,
-                                                       "fingerprint": None})
-            elif npar % 5000 == 1:
-                rep.sample({"parser_text": text, "grammar_verdict": expect, "parser_verdict": got})
+            jobs.append((types, -1 if t in acc else (len(types) if t in nxt else len(c["w"])), rng.randrange(3)))
+    res = realrun.pmap(parse_job, jobs, chunk=500)
+    npar = 0
+    dropped = 0
+    for (types, expect, _), rr in zip(jobs, res):
+        if rr is None:
+            dropped += 1
+            continue
+        text, got = rr
+        npar += 1
+        bad = (expect == -1) != (got == -1) or (expect >= 0 and got >= 0 and got < expect)
+        if bad:
+            rep.violation("Python parser verdict %d, grammar says %d (-1 = sentence, else first bad token) for token types %s"
+                          % (got, expect, types), {"kind": "parser", "text": text, "types": types, "expect": expect, "got": got,
+                                                   "fingerprint": None})
+        elif npar % 5000 == 1:
+            rep.sample({"parser_text": text, "grammar_verdict": expect, "parser_verdict": got})
     rep.cov["parser_cases"] = npar
     rep.cov["parser_cases_unrenderable"] = dropped
     rep.cov["traces_validated_against_impl"] += npar
